@@ -119,7 +119,9 @@ impl Loader<LoadError> for MemLoader<'_> {
 }
 
 pub fn files_of(texts: &[(String, String)]) -> BTreeMap<String, String> {
-    texts.iter().cloned().collect()
+    // A module "outside" the main module's directory (`../shared/m.oal`): above the root of
+    // the in-memory file system `..` is the root itself.
+    texts.iter().map(|(n, t)| (n.trim_start_matches("../").to_owned(), t.clone())).collect()
 }
 
 /// Loads and compiles; `texts[0]` is the main module.
